@@ -5,7 +5,7 @@ R = "repid/_runner.py::_Runner."
 RINV = ("self._limiter._value >= 0 and ghost.reserved >= 0 and self._tasks_processed >= 0"
         " and ghost.started >= self._tasks_processed"
         " and ghost.started - self._tasks_processed + ghost.reserved == self._tasks_concurrency_limit - self._limiter._value")
-SHARED = ["self._limiter._value", "self._tasks_processed", "ghost.started", "ghost.reserved",
+SHARED = ["self._limiter._value", "self._tasks_processed", "ghost.started", "ghost.reserved", "self._tasks.n",
           "self.stop_consume_event._flag", "self.cancel_event._flag"]
 RELY = ["self._tasks_processed >= old(self._tasks_processed)", "ghost.started >= old(ghost.started)",
         "implies(old(self.stop_consume_event._flag), self.stop_consume_event._flag)",
@@ -21,14 +21,16 @@ def register(db):
     db.define("runner_inv(self)", RINV)
     db.define("in_flight(self)", "ghost.started - self._tasks_processed")
 
-    db.contract(fn=R + "max_tasks_hit", serves=["C10"],
-                ensures={"formula": "result == (self.max_tasks - self._tasks_processed"
-                                    " - (self._tasks_concurrency_limit - self._limiter._value) <= 0)"})
+    db.contract(fn=R + "max_tasks_hit", serves=["C10"], ghost_init={"started": "int", "reserved": "int"},
+                requires=["runner_inv(self)", "self._tasks.n == in_flight(self)"],
+                # from the property: the limit is hit when finished + in flight + slots already reserved for a message reach M
+                ensures={"formula": "result == (self.max_tasks - self._tasks_processed - in_flight(self) - ghost.reserved <= 0)"})
     db.contract(
         fn=R + "_task_callback", serves=["C09", "C10", "C02"], binds={"task": "Task"},
         ghost_init={"started": "int", "reserved": "int", "my_slots": "int"},
-        requires=["runner_inv(self)", "in_flight(self) >= 1", "self.max_tasks >= 1", "self._tasks_concurrency_limit >= 1"],
-        ensures={"invariant": "runner_inv(self)",
+        requires=["runner_inv(self)", "in_flight(self) >= 1", "self.max_tasks >= 1", "self._tasks_concurrency_limit >= 1",
+                  "self._tasks.n == in_flight(self)"],
+        ensures={"invariant": "runner_inv(self)", "task_set_is_in_flight": "self._tasks.n == in_flight(self)",
                  "one_slot_released": "self._limiter._value == old(self._limiter._value) + 1",
                  "one_finished": "self._tasks_processed == old(self._tasks_processed) + 1",
                  "stop_when_limit_hit": "implies(self.max_tasks - self._tasks_processed - in_flight(self) - ghost.reserved <= 0,"
@@ -37,7 +39,7 @@ def register(db):
                                    " self.stop_consume_event._flag == old(self.stop_consume_event._flag))",
                  "concurrency": "in_flight(self) <= self._tasks_concurrency_limit"},
         raises=[],   # never raises, whatever the task's outcome: the consumer loop is not unwound by it
-        modifies=["self._limiter._value", "self._tasks_processed", "self.stop_consume_event._flag"],
+        modifies=["self._limiter._value", "self._tasks_processed", "self.stop_consume_event._flag", "self._tasks.n"],
     )
 
     # ---- consumer interface as seen by the runner
@@ -68,7 +70,7 @@ def register(db):
                                      "concurrency": "in_flight(self) <= self._tasks_concurrency_limit",
                                      "message_limit": "ghost.started <= self.max_tasks",
                                      "nothing_held": "ghost.held == 0", "no_slot_kept": "ghost.my_slots == 0"},
-                          modifies={"ghost.my_slots": None, "self._limiter._value": None, "self._tasks_processed": None, "ghost.started": None,
+                          modifies={"ghost.my_slots": None, "self._tasks.n": None, "self._limiter._value": None, "self._tasks_processed": None, "ghost.started": None,
                                     "ghost.reserved": None, "ghost.held": None, "self.stop_consume_event._flag": None,
                                     "self.cancel_event._flag": None})},
         raises=[Raises("Exception", mode="may", anysub=True,
